@@ -108,5 +108,16 @@ class Image:
                     return f"offset {k * PAGE + i:#x}: {show(a)} vs {show(b)}"
         return "equal"
 
+    def read(self, off: int, n: int) -> bytes | None:
+        """The n bytes at `off`, or None when one of them was never written."""
+        out = bytearray()
+        for i in range(off, off + n):
+            page, po = divmod(i, PAGE)
+            pg = self.pages.get(page)
+            if pg is None or not pg[1][po]:
+                return None
+            out.append(pg[0][po])
+        return bytes(out)
+
     def written(self) -> int:
         return sum(sum(pg[1]) for pg in self.pages.values())
